@@ -57,6 +57,10 @@ type Program struct {
 	// design still mentions the name (a reference that is silently dropped is as wrong as one
 	// that is kept); set when nothing in the program can replace the referring construct.
 	Strict bool `json:"strict,omitempty"`
+	// Unmet is non-empty for programs of the requirement / credential family whose security
+	// requirement names a scheme whose credential attribute the payload does not have (class of
+	// the unmet scheme + transport): acceptance is a violation.
+	Unmet string `json:"unmet,omitempty"`
 }
 
 const holeFn = "$HOLE"
